@@ -70,6 +70,7 @@ class Store:
             if s["pl"]["p"]:
                 # a write through a projection invalidates what is known about the variant of the root
                 st.pop(("var", s["pl"]["l"]), None)
+                st.pop(("pvar", s["pl"]["l"]), None)
                 continue
             l = s["pl"]["l"]
             rv = s["rv"]
@@ -84,11 +85,21 @@ class Store:
                         r_, neg_ = _root(self.body, op_local(o_))
                         if ("flag", r_) in st:
                             st[("tflag", l, i_)] = st[("flag", r_)] != neg_
-            # variant tags: which enum variant a local holds
+            # variant tags: which enum variant a local holds (and, one level down, which variant its single payload holds:
+            # `Poll::Ready(Err(e))` handed from an inlined awaited helper to the caller's `?`)
+            st.pop(("pvar", l), None)
             if rv["k"] == "agg" and rv.get("agg") == "adt" and rv.get("variant"):
                 st[("var", l)] = rv["variant"]
+                if len(rv.get("ops") or []) == 1 and op_local(rv["ops"][0]) is not None and not rv["ops"][0]["pl"]["p"] and ("var", op_local(rv["ops"][0])) in st:
+                    st[("pvar", l)] = (rv["variant"], st[("var", op_local(rv["ops"][0]))])
             elif rv["k"] == "use" and op_local(rv["o"]) is not None and not rv["o"]["pl"]["p"] and ("var", op_local(rv["o"])) in st:
                 st[("var", l)] = st[("var", op_local(rv["o"]))]
+                if ("pvar", op_local(rv["o"])) in st:
+                    st[("pvar", l)] = st[("pvar", op_local(rv["o"]))]
+            elif rv["k"] == "use" and op_local(rv["o"]) is not None and ("pvar", op_local(rv["o"])) in st and \
+                    [e[0] for e in rv["o"]["pl"]["p"]] == ["dc", "f"] and rv["o"]["pl"]["p"][0][1] == st[("pvar", op_local(rv["o"]))][0] and rv["o"]["pl"]["p"][1][1] == 0:
+                st[("var", l)] = st[("pvar", op_local(rv["o"]))][1]
+                st.pop(("discr", l), None)
             elif rv["k"] == "discr" and not rv["pl"]["p"] and ("var", rv["pl"]["l"]) in st:
                 st[("discr", l)] = st[("var", rv["pl"]["l"])]
             else:
@@ -137,6 +148,7 @@ class Store:
             else:
                 st.pop(("var", dl_), None)
             st.pop(("discr", dl_), None)
+            st.pop(("pvar", dl_), None)
         if t and t["k"] == "call":
             name = t.get("callee") or ""
             dest = t["dest"]["l"]
